@@ -30,7 +30,7 @@ m = {
     'setup_cmd': 'true',
     'hooks': {
         'guard': 'cfg(kani)',
-        'enable': 'Verus units read /repo/src text directly (no hook). Kani in-crate harnesses: `cargo kani` sets cfg(kani), which compiles `mod verif_kani` in src/lib.rs (includes $CALLOOP_VERIF_DIR/kx/incrate/harness.rs); nothing else in /repo is guarded',
+        'enable': 'Verus units read /repo/src text directly (no hook). Kani in-crate harnesses: `cargo kani` sets cfg(kani), which compiles `mod verif_kani` in src/lib.rs (includes $CALLOOP_VERIF_DIR/kx/incrate/harness.rs) and `mod verif_kani` in src/sys.rs (includes $CALLOOP_VERIF_DIR/kx/incrate/sys_harness.rs, to reach the private cvt_interest/cvt_mode); nothing else in /repo is guarded',
         'baseline_off_cmd': 'cd /repo && cargo test --workspace --no-fail-fast --offline',
         'source_commits': propinfo.HOOK_COMMITS if hasattr(propinfo, 'HOOK_COMMITS') else [],
         'add_only': True,
